@@ -355,6 +355,14 @@ func (in *Interp) set(c *Cell, v Value) {
 	if in.watch != nil {
 		in.watchStore(c, v)
 	}
+	if in.writeMark > 0 && c.id > 0 && c.id <= in.writeMark {
+		r := rootOf(c)
+		w := r.label
+		if w == "" && r.t != nil {
+			w = r.t.String()
+		}
+		in.foreignWrites = append(in.foreignWrites, w)
+	}
 	c.v = v
 }
 
